@@ -836,11 +836,11 @@ def batchIter (flow : Bool) (axes : Nat) (t : Raw) (grids : List GridTag) : Val 
 def GridTag.narrow (g : GridTag) (gdim start length : Nat) : GridTag :=
   ⟨g.src, setAt g.shape (g.shape.length - 1 - gdim) length, g.hist ++ [(gdim, start, length)]⟩
 
-/-- image.py:ImageBatch.narrow @428-436. `dim == 0` and `dim > 1` test the argument as given: a NEGATIVE dim takes
-    neither branch, the grids are passed on unchanged. -/
+/-- image.py:ImageBatch.narrow @428-438 (a negative dim is normalised before the grids are selected). -/
 def batchNarrow (flow : Bool) (axes : Nat) (t : Raw) (grids : List GridTag) (dim start len : Int) : Val :=
   match torchSem (.narrowF dim start len) t none with
   | .t data =>
+    let dim : Int := if dim < 0 then dim + (t.ndim : Int) else dim                 -- @432-433 `if dim < 0: dim += self.ndim`
     let gs' : Option (List GridTag) :=
       if dim = 0 then                                                              -- grid[start : start + length]
         (if 0 ≤ start ∧ 0 ≤ len then some (pySlice grids start.toNat len.toNat)    -- (python slice, non-negative bounds)
@@ -861,7 +861,7 @@ def imageBatch (flow : Bool) (axes : Nat) (t : Raw) (g : GridTag) : Except ErrKi
   if flow then mkFlowFields1 data g axes else mkImageBatch1 data g
 
 /-- image.py:from_images @200-207 (the class is that of the caller: FlowFields when the items are flow fields).
-    `cls(data, grid)`: axes are NOT passed on. -/
+    FlowFields.from_images re-creates the batch with the items' common axes. -/
 def fromImages (l : List SVal) : Val :=
   match l.mapM (fun s => match s with | .image f t g _ => some (f, t, g) | _ => none) with
   | none =>
@@ -873,7 +873,16 @@ def fromImages (l : List SVal) : Val :=
       let all := (f, t0, g0) :: rest
       let data : Raw := ⟨all.length :: t0.shape, all.map (fun x => joinAll x.2.1.prov)⟩
       let grids := all.map (fun x => x.2.2)
-      if f then ofExcept (mkFlowFields data grids none) else ofExcept (mkImageBatch data grids)
+      if f then
+        -- flow.py:FlowFields.from_images @123-128: super().from_images (default axes), then the items' common axes
+        match mkFlowFields data grids none with
+        | .error e => .err e
+        | .ok b =>
+          match torchFunctionAxes l with
+          | .error e => .err e
+          | .ok none => .one b
+          | .ok (some a) => ofExcept (mkFlowFields data grids (some a))
+      else ofExcept (mkImageBatch data grids)
 
 /-- collate.py:collate_samples @38-99 for one field holding images / flow fields / batches -/
 def collate (l : List SVal) : Val :=
@@ -910,19 +919,23 @@ def collate (l : List SVal) : Val :=
 /-- image.py:append @209-215 -/
 def batchAppend (flow : Bool) (axes : Nat) (t : Raw) (grids : List GridTag) (other : Option SVal) : Val :=
   match other with
-  | some (.batch _ t' grids' _) =>
+  | some (.batch fo t' grids' ao) =>
+      -- flow.py:FlowFields.append @130-133: `_torch_function_axes([self, other])` raises for mismatching axes
+      if flow ∧ fo ∧ ao ≠ axes then .err .dispatch else
       if t'.ndim ≠ t.ndim ∨ t'.shape.drop 1 ≠ t.shape.drop 1 then .err .torch else
       ofExcept (makeInstance flow axes ⟨(t.shape.headD 0 + t'.shape.headD 0) :: t.shape.drop 1, t.prov ++ t'.prov⟩ (grids ++ grids'))
   | some _ => .err .dispatch
   | none => .err .badop
 
-/-- tensor.py:__copy__ @73-74: `self._make_instance()`; FlowFields/FlowField._make_instance require `data` → TypeError -/
+/-- tensor.py:__copy__ @73-74: `self._make_instance()`; flow.py:_make_instance @85-100 / @426-435 default `data` to
+    `self.tensor()` / `self` and `grid` to `self._grid` and keep the axes. -/
 def copyVal (s : SVal) : Val :=
   match s with
   | .plain t => .one (.plain t)
   | .batch false t g _ => ofExcept (mkImageBatch t g)
   | .image false t g _ => ofExcept (mkImage t g)
-  | .batch true .. | .image true .. => .err .dispatch
+  | .batch true t g a => ofExcept (makeInstance true a t g)
+  | .image true t g a => ofExcept (mkFlowField t g a)
 
 /-- tensor.py/image.py:__deepcopy__ (data cloned, grids cloned, axes kept) -/
 def deepcopyVal (s : SVal) : Val :=
